@@ -2,14 +2,25 @@
 (* Trace specification for C01: every recorded PCA fit (c01_drv.c) is replayed against the ledger of Pca.tla.      *)
 (* Prop.. conjuncts are what the property states, evaluated by TLC on the logged integers at every step;           *)
 (* Impl.. conjuncts say how the present code happens to do it and are disabled by PropOnly (spec-drift handling).  *)
-(* One model = Reset, Fit, Extract x npc, Finish, Project, Back.  A fit that died (Abort) or an event out of order *)
-(* matches no action and is rejected.  Dropped = an input the generator produced outside the quantifier: skipped.  *)
+(* One model = Reset, Fit, Extract x npc, Finish, Project, Back [, Refit | RSq].  A fit that died (Abort) or an event    *)
+(* out of order matches no action and is rejected.  Dropped = an input the generator produced outside the          *)
+(* quantifier: skipped.                                                                                            *)
+(* Reports that are not rejections travel as "@@" lines (PrintT of a JSON record) evaluated by TLC:                *)
+(*   cls   - the input classes of a Fit (Pca!FitTags)                                                              *)
+(*   known - an inversion of the eigenvalue order that Pca!StartOrthogonal classifies as the known finding         *)
+(*           PCA:eigenvalue-order:start-orthogonal (every other clause of that fit is judged as usual; an          *)
+(*           inversion the classification does not cover is rejected = VIOLATION); or explained variances below  *)
+(*           the eigenvalues while a stored score coincides with the in-band missing-value code                   *)
+(*           (PCA:varexp:score-equals-missing-code)                                                                *)
+(*   extra - a fit into a used model object that differs from the fit into a fresh one; PCARSquared() that is not   *)
+(*           1 - |X - back-transformation|^2 / |X - means|^2 (both outside the statement)                          *)
 EXTENDS Pca, TraceBase
 CONSTANT PropOnly
 VARIABLE l
 tvars == <<lvars, svars, l>>
 Ev == Tr[l]
 Step == l' = l + 1 /\ UNCHANGED svars /\ UNCHANGED <<truth, ok>>
+Report(rec) == PrintT("@@" \o ToJson(rec))
 
 TInit == /\ l = 1 /\ LInit /\ spectrum = {} /\ remaining = {} /\ extracted = <<>> /\ shape = <<0, 0>>
 
@@ -23,34 +34,57 @@ TDropped == /\ l <= Len(Tr) /\ Ev.e = "Dropped" /\ Step /\ phase = "Idle"
 
 TFit == /\ l <= Len(Tr) /\ Ev.e = "Fit" /\ Step /\ phase = "Idle"
         /\ ShapeOk(Ev.n, Ev.c, Ev.scaling, Ev.npc, Ev.rank, Ev.nproc) /\ Ev.tail >= 0
+        /\ Ev.gen \in GenNames /\ Ev.rmode \in RModes /\ Ev.h \in 0..4
+        /\ Report([cls |-> FitTags(Ev), seed |-> Ev.seed, gen |-> Ev.gen, gp |-> Ev.gp, n |-> Ev.n, c |-> Ev.c, scaling |-> Ev.scaling, npc |-> Ev.npc, nproc |-> Ev.nproc, h |-> Ev.h])
         /\ n' = Ev.n /\ c' = Ev.c /\ scaling' = Ev.scaling /\ npc' = Ev.npc /\ rank' = Ev.rank /\ tail' = Ev.tail
         /\ k' = 0 /\ ssLeft' = One /\ evals' = <<>> /\ phase' = "Fit"
 
+(* the order clause: eigenvalues non-increasing - or the inversion is the classified known finding (decided from the PREVIOUS Extract event) *)
+OrderOrKnown == IF PropEvalOrder(n, LastEval, Ev) THEN TRUE
+                ELSE /\ k >= 1 /\ l > 1 /\ Tr[l-1].e = "Extract"
+                     /\ StartOrthogonal(n, Tr[l-1], Ev)
+                     /\ Report([known |-> "start-orthogonal", fs |-> Ev.fs, k |-> Ev.k, prev |-> Tr[l-1].eval, eval |-> Ev.eval,
+                                sc12 |-> Tr[l-1].sc12, r9 |-> Tr[l-1].r9, n |-> n, c |-> c, scaling |-> scaling, npc |-> npc])
+
 TExtract == /\ l <= Len(Tr) /\ Ev.e = "Extract" /\ Step /\ phase = "Fit"
             /\ k < npc /\ Ev.k = k + 1                                        \* rank countdown: exactly npc extractions, in order
-            /\ PropExtract(n, ssLeft, LastEval, Ev)
+            /\ PropExtractNoOrder(n, ssLeft, Ev)
+            /\ OrderOrKnown
             /\ (PropOnly \/ ImplExtract(Ev))
             /\ k' = k + 1 /\ ssLeft' = Ev.resid /\ evals' = Append(evals, Ev.eval)
             /\ UNCHANGED <<n, c, scaling, npc, rank, tail, phase>>
 
 TFinish == /\ l <= Len(Tr) /\ Ev.e = "Finish" /\ Step /\ phase = "Fit"
            /\ k = npc                                                        \* Finish only after npc extractions
-           /\ PropFinish(n, evals, ssLeft, IsFull, Ev.varexp)
+           /\ (IF PropFinishW(n, evals, ssLeft, IsFull, Ev.varexp) THEN TRUE
+               ELSE /\ \E i \in (l - k)..(l - 1) : Tr[i].e = "Extract" /\ Tr[i].tm > 0        \* a stored score coincides with the in-band missing-value code
+                    /\ PropFinishSentinel(n, evals, Ev.varexp)
+                    /\ Report([known |-> "score-equals-missing-code", fs |-> Tr[l-1].fs, k |-> k, n |-> n, c |-> c, scaling |-> scaling, npc |-> npc,
+                               varexp |-> Ev.varexp, evals |-> evals]))
            /\ phase' = "Finished"
            /\ UNCHANGED <<n, c, scaling, npc, rank, tail, k, ssLeft, evals>>
 
 TProject == /\ l <= Len(Tr) /\ Ev.e = "Project" /\ Step /\ phase = "Finished"
-            /\ PropProject(Ev.err) /\ (PropOnly \/ ImplProject(Ev.err))
-            /\ PropResidual(Ev.gr)                     \* GetResidualMatrix = preprocessed data - scores x loadings^T
+            /\ PropProjectAll(Ev)                      \* re-projection (all / fewer components into the same output), GetResidualMatrix = preprocessed data - scores x loadings^T
+            /\ (PropOnly \/ (ImplProject(Ev.err) /\ ImplProject(Ev.part)))
             /\ phase' = "Projected"
             /\ UNCHANGED <<n, c, scaling, npc, rank, tail, k, ssLeft, evals>>
 
 TBack == /\ l <= Len(Tr) /\ Ev.e = "Back" /\ Step /\ phase = "Projected"
-         /\ PropBack(Ev.err, Ev.repr)
+         /\ PropBackAll(Ev)
          /\ phase' = "Backed"
          /\ UNCHANGED <<n, c, scaling, npc, rank, tail, k, ssLeft, evals>>
 
-TNext == TReset \/ TDropped \/ TFit \/ TExtract \/ TFinish \/ TProject \/ TBack
+(* outside the statement of C01: never rejected, reported *)
+TRefit == /\ l <= Len(Tr) /\ Ev.e = "Refit" /\ Step /\ phase = "Backed"
+          /\ (IF RefitSame(Ev) THEN TRUE ELSE Report([extra |-> "fit-into-used-model", fs |-> Ev.fs, vlen |-> Ev.vlen, npc |-> Ev.npc, terr |-> Ev.terr, perr |-> Ev.perr, died |-> Ev.died]))
+          /\ UNCHANGED <<n, c, scaling, npc, rank, tail, k, ssLeft, evals, phase>>
+
+TRSq == /\ l <= Len(Tr) /\ Ev.e = "RSq" /\ Step /\ phase = "Backed"
+        /\ (IF RSqRight(Ev) THEN TRUE ELSE Report([extra |-> "PCARSquared", fs |-> Ev.fs, len |-> Ev.len, npc |-> Ev.npc, err |-> Ev.err, scaling |-> Ev.scaling, died |-> Ev.died]))
+        /\ UNCHANGED <<n, c, scaling, npc, rank, tail, k, ssLeft, evals, phase>>
+
+TNext == TReset \/ TDropped \/ TFit \/ TExtract \/ TFinish \/ TProject \/ TBack \/ TRefit \/ TRSq
 TSpec == TInit /\ [][TNext]_tvars
 TraceAccepted == Accepted
 Diag == ShowCursor(l)
